@@ -161,6 +161,50 @@ func runReuseCase(w *out.W, c reuseCase) {
 				w.Count(dialect + ":filtered")
 				w.NonTrivial(dialect + allShow + strings.Join(names, ","))
 			}
+			// the other two entry points that build their own DiffOptions (sqlx.Diff.RealmDiff, TableDiff),
+			// with the same kept values (oracle only)
+			for _, entry := range []string{"RealmDiff", "TableDiff"} {
+				run := func(opts []schema.DiffOption) (string, []cch) {
+					f, t := buildD(c.from, dialect), buildD(c.to, dialect)
+					var (
+						cs  []schema.Change
+						err error
+					)
+					if entry == "RealmDiff" {
+						cs, err = d.RealmDiff(schema.NewRealm(f), schema.NewRealm(t), opts...)
+					} else {
+						if len(f.Tables) == 0 {
+							return "none", nil
+						}
+						t2, ok := t.Table(f.Tables[0].Name)
+						if !ok {
+							return "none", nil
+						}
+						cs, err = d.TableDiff(f.Tables[0], t2, opts...)
+					}
+					if err != nil {
+						return "err", nil
+					}
+					cc := canon(cs)
+					return showC(cc), cc
+				}
+				g2, g2c := run(callOpts)
+				if g2 == "none" {
+					continue
+				}
+				w.Count(dialect + ":" + entry)
+				if w2, _ := run(fresh(call)); w2 != g2 {
+					w.Violation(id, "reuse-differs-from-fresh", fmt.Sprintf("%s [%s]: reused option values give %s, freshly made options with the same kinds %v give %s", where, entry, g2, names, w2))
+				}
+				if t, ok := occursKind(g2c, K); ok {
+					w.Violation(id, "skip-kind-present", fmt.Sprintf("%s [%s]: skipped kinds %v but the change set holds %s: %s", where, entry, names, t, g2))
+				}
+				if a2, a2c := run([]schema.DiffOption{schema.DiffNormalized()}); a2 != "err" && g2 != "err" {
+					if ref := showC(refRemove(a2c, K)); ref != g2 {
+						w.Violation(id, "skip-not-exact", fmt.Sprintf("%s [%s]: skip %v: got %s, unfiltered minus skipped kinds is %s", where, entry, names, g2, ref))
+					}
+				}
+			}
 		}
 		for i := range c.pool {
 			if kept[i] == nil {
